@@ -1,33 +1,77 @@
 (* C03 — generated struct codecs round-trip and match the IDL schema encoding. Statements only.
-   Full statement (kept visible) and the parts proved; the full statement is decided on every run by the
-   correspondence on every generated struct type (model decode = ReadFrom, model encode(decode) = WriteTo). *)
+   The model (Codec/GenCodec.v) is tied to the generated Go code on every run by the correspondence on every
+   generated struct type (model decode = ReadFrom, model encode(decode) = WriteTo, byte-exact). *)
 From Coq Require Import List NArith ZArith.
-From TarsV Require Import Base.Hex Codec.Wire Codec.Skip Codec.Prim Codec.GenCodec Codec.Corr Codec.GenProofs Gen.Schemas.
+From TarsV Require Import Base.Hex Codec.Wire Codec.Skip Codec.Prim Codec.GenCodec Codec.Corr Codec.GenProofs
+  Codec.RoundTrip Codec.RoundTripProofs Codec.RoundTripExamples Gen.Schemas.
 Import ListNotations.
 Open Scope N_scope.
 
-(* full statement: for every well-formed schema environment, struct and value, decoding the encoding gives the value back *)
-Definition C03_roundtrip_statement : Prop :=
-  forall (e : env) (sid : nat) (v : val), wf_env e = true ->
-  forall v', decode e sid (encode e sid v) = DOk v' [] -> val_sim (canon v') (canon v) = true.
+(* Struct-level round trip, for EVERY schema environment satisfying wf_schema (member tags strictly ascending
+   and < 256, declared defaults on scalar members only, by-value struct nesting of depth <= k), every struct
+   type of it - flat, with strings/byte vectors, vectors, maps, fixed arrays, nested and recursive structs -
+   and every well-typed value: decoding the encoding into a fresh target yields the normal form of the value
+   (the value itself except that an optional scalar that was omitted because it compares equal to its default
+   comes back as the default), and consumes the input exactly. The last hypothesis is the adequacy of the
+   model's fuel (4*len+64) for the value's recursion depth. *)
+Theorem C03_roundtrip : forall e k sid vs,
+  wf_schema k e -> (S k <= 64)%nat -> has_type e (TStruct sid) (VStruct vs) ->
+  (need_list vs + k + 3 <= 2 * length (encode e sid (VStruct vs)) + 64)%nat ->
+  decode e sid (encode e sid (VStruct vs)) = DOk (norm_struct e sid (VStruct vs)) [].
+Proof. exact RoundTripProofs.roundtrip_struct. Qed.
 
-(* proved: every scalar member type (bool, 8/16/32/64-bit signed and unsigned, float, double, string, enum)
-   round-trips at member level under any tag, before any suffix, with the cursor exactly at the suffix *)
-Theorem C03_scalar_member_roundtrip_partial : forall f e tag req t prior v rest, tag < 256 -> scalar_typed t v ->
+(* the same with the fuel condition discharged from the schema alone, for every struct type whose type graph
+   is finite (tfin) and whose static depth bound (tneed) fits the model's constant *)
+Theorem C03_roundtrip_static : forall e k n sid vs,
+  wf_schema k e -> (S k <= 64)%nat -> tfin n e (TStruct sid) = true -> (tneed n e (TStruct sid) + k <= 64)%nat ->
+  has_type e (TStruct sid) (VStruct vs) ->
+  decode e sid (encode e sid (VStruct vs)) = DOk (norm_struct e sid (VStruct vs)) [].
+Proof. exact RoundTripProofs.roundtrip_struct_static. Qed.
+
+(* into any admissible target (every position without a declared default holds the Go zero value), before any
+   suffix that cannot be mistaken for a member: the cursor stops exactly at the suffix *)
+Theorem C03_roundtrip_into : forall e k sid vs prior rest,
+  wf_schema k e -> has_type e (TStruct sid) (VStruct vs) -> zlike e (TStruct sid) prior ->
+  (forall fd, In fd (fields_of e sid) -> follows (ftag fd) rest) ->
+  (need_list vs + k + 3 <= 2 * length (encode e sid (VStruct vs) ++ rest) + 64)%nat ->
+  decode_into e sid prior (encode e sid (VStruct vs) ++ rest) = DOk (norm_struct e sid (VStruct vs)) rest.
+Proof. exact RoundTripProofs.roundtrip_into. Qed.
+
+(* the fuel the model needs is linear in the encoding, with a constant that depends on the schema only *)
+Theorem C03_fuel_linear : forall e n sid vs, tfin n e (TStruct sid) = true -> has_type e (TStruct sid) (VStruct vs) ->
+  (3 + need_list vs <= tneed n e (TStruct sid) + 2 * length (encode e sid (VStruct vs)))%nat.
+Proof. exact RoundTripProofs.need_top. Qed.
+
+(* instantiated on the schemas regenerated from the tree: they satisfy wf_schema, and every well-typed value
+   of every generated struct type with a finite type graph (all but the recursive test struct) round-trips *)
+Theorem C03_code_schemas_wf : wf_schema 2 env0.
+Proof. exact RoundTripExamples.env0_wf_schema. Qed.
+Theorem C03_code_schemas_roundtrip : forall sid vs, tfin 8 env0 (TStruct sid) = true ->
+  has_type env0 (TStruct sid) (VStruct vs) ->
+  decode env0 sid (encode env0 sid (VStruct vs)) = DOk (norm_struct env0 sid (VStruct vs)) [].
+Proof. exact RoundTripExamples.env0_roundtrip. Qed.
+Theorem C03_code_schemas_finite :
+  filter (fun sid => negb (tfin 8 env0 (TStruct sid))) (seq 0 (length env0)) = [sid_verifidl_Rec].
+Proof. exact RoundTripExamples.env0_nonrecursive. Qed.
+
+(* member level: every scalar member type round-trips under any tag, before any suffix, exact cursor *)
+Theorem C03_scalar_member_roundtrip : forall f e tag req t prior v rest, tag < 256 -> scalar_typed t v ->
   dec_var (S (S f)) e tag req t prior (w_scalar t v tag ++ rest) = DOk v rest.
 Proof. exact GenProofs.scalar_member_roundtrip. Qed.
 
-(* proved: an omitted optional scalar member decodes to its reset value without consuming anything *)
-Theorem C03_optional_member_absent_partial : forall f e tag t prior rest,
-  (match t with TVec _ | TMap _ _ | TArr _ _ | TStruct _ => False | _ => True end) ->
-  (rest = [] \/ exists ty tg r, read_head2 rest = Some (ty, tg, r, negb (tg <? 15)) /\ ((ty =? tSE) || (tag <? tg) = true)) ->
-  dec_var (S (S f)) e tag false t prior rest = DOk prior rest.
-Proof. exact GenProofs.optional_member_absent. Qed.
+(* the boolean checkers used to instantiate the hypotheses are sound *)
+Theorem C03_wf_schema_b_sound : forall k e, wf_schema_b k e = true -> wf_schema k e.
+Proof. exact RoundTripProofs.wf_schema_b_sound. Qed.
+Theorem C03_has_type_b_sound : forall e fuel t v, has_type_b fuel e t v = true -> has_type e t v.
+Proof. exact RoundTripProofs.has_type_b_sound. Qed.
 
-(* the regenerated schemas of the code's own struct types are well formed (tags ascending, < 256, references resolve) *)
-Theorem C03_code_schemas_wf : wf_env env0 = true.
-Proof. exact Schemas.env0_wf. Qed.
-
-Print Assumptions C03_scalar_member_roundtrip_partial.
-Print Assumptions C03_optional_member_absent_partial.
+Print Assumptions C03_roundtrip.
+Print Assumptions C03_roundtrip_static.
+Print Assumptions C03_roundtrip_into.
+Print Assumptions C03_fuel_linear.
 Print Assumptions C03_code_schemas_wf.
+Print Assumptions C03_code_schemas_roundtrip.
+Print Assumptions C03_code_schemas_finite.
+Print Assumptions C03_scalar_member_roundtrip.
+Print Assumptions C03_wf_schema_b_sound.
+Print Assumptions C03_has_type_b_sound.
